@@ -43,7 +43,14 @@ var (
 	StakingFails bool
 )
 
-func ResetStaking() { StakingLog = nil; PendingRewards = nil; StakingFails = false }
+func ResetStaking() {
+	StakingLog = nil
+	PendingRewards = nil
+	StakingFails = false
+	Rewards, RewardsQueriedFor = nil, nil
+	QueryLog, Bonded = nil, nil
+	Delegations, Validators, LastValidators = nil, nil, nil
+}
 
 type valCodec struct{}
 
@@ -115,6 +122,9 @@ func DKWithdrawDelegatorReward(_ interface{}, ctx context.Context, msg *disttype
 		return nil, errStaking
 	}
 	amt := PendingRewards
+	if r := rewardOf(msg.ValidatorAddress); r != nil {
+		amt = r
+	}
 	if amt == nil {
 		amt = big.NewInt(0)
 	}
@@ -180,8 +190,15 @@ var (
 	LastValidators []string
 )
 
-func SKGetAllDelegatorDelegations(_ interface{}, _ context.Context, _ sdk.AccAddress) ([]stakingtypes.Delegation, error) {
-	return append([]stakingtypes.Delegation(nil), Delegations...), nil
+func SKGetAllDelegatorDelegations(_ interface{}, _ context.Context, del sdk.AccAddress) ([]stakingtypes.Delegation, error) {
+	QueryLog = append(QueryLog, "delegations|"+del.String()+"|")
+	var out []stakingtypes.Delegation
+	for _, d := range Delegations {
+		if d.DelegatorAddress == del.String() {
+			out = append(out, d)
+		}
+	}
+	return out, nil
 }
 
 func SKValidator(_ interface{}, _ context.Context, addr sdk.ValAddress) (stakingtypes.ValidatorI, error) {
@@ -201,6 +218,92 @@ func SKIterateLastValidators(_ interface{}, _ context.Context, fn func(index int
 	return nil
 }
 
-func DKDelegationTotalRewards(_ interface{}, _ context.Context, _ *disttypes.QueryDelegationTotalRewardsRequest) (*disttypes.QueryDelegationTotalRewardsResponse, error) {
-	return &disttypes.QueryDelegationTotalRewardsResponse{}, nil
+// RewardEntry: outstanding rewards of the querying delegator at one validator (integer part in the bond
+// denomination, a fractional part in 10^-18 units, and an amount in some other denomination).
+type RewardEntry struct {
+	Validator string
+	Amount    *big.Int
+	Frac      *big.Int
+	Other     *big.Int
+}
+
+// Rewards is what the distribution querier reports (in this order); RewardsQueriedFor records the delegator asked for.
+var (
+	Rewards           []RewardEntry
+	RewardsQueriedFor []string
+)
+
+func rewardOf(validator string) *big.Int {
+	for _, r := range Rewards {
+		if r.Validator == validator {
+			return r.Amount
+		}
+	}
+	return nil
+}
+
+func DKDelegationTotalRewards(_ interface{}, _ context.Context, req *disttypes.QueryDelegationTotalRewardsRequest) (*disttypes.QueryDelegationTotalRewardsResponse, error) {
+	RewardsQueriedFor = append(RewardsQueriedFor, req.DelegatorAddress)
+	resp := &disttypes.QueryDelegationTotalRewardsResponse{}
+	scale := new(big.Int).Exp(big.NewInt(10), big.NewInt(18), nil)
+	total := sdk.DecCoins{}
+	for _, r := range Rewards {
+		raw := new(big.Int).Add(new(big.Int).Mul(r.Amount, scale), r.Frac)
+		dc := sdk.DecCoins{}
+		if raw.Sign() > 0 {
+			dc = dc.Add(sdk.NewDecCoinFromDec(BondDenom, sdkmath.LegacyNewDecFromBigIntWithPrec(raw, 18)))
+		}
+		if r.Other != nil && r.Other.Sign() > 0 {
+			dc = dc.Add(sdk.NewDecCoinFromDec("zother", sdkmath.LegacyNewDecFromBigInt(r.Other)))
+		}
+		resp.Rewards = append(resp.Rewards, disttypes.DelegationDelegatorReward{ValidatorAddress: r.Validator, Reward: dc})
+		total = total.Add(dc...)
+	}
+	resp.Total = total
+	return resp, nil
+}
+
+// ---- native queries behind the view methods -----------------------------------------------------------------
+
+// QueryLog records, per native query, whom it was asked for ("kind|delegator|validator").
+var QueryLog []string
+
+// Bonded is what GetDelegatorBonded reports.
+var Bonded *big.Int
+
+func SKGetDelegation(_ interface{}, _ context.Context, del sdk.AccAddress, val sdk.ValAddress) (stakingtypes.Delegation, error) {
+	QueryLog = append(QueryLog, "delegation|"+del.String()+"|"+val.String())
+	for _, d := range Delegations {
+		if d.DelegatorAddress == del.String() && d.ValidatorAddress == val.String() {
+			return d, nil
+		}
+	}
+	return stakingtypes.Delegation{}, stakingtypes.ErrNoDelegation
+}
+
+func SKGetDelegatorBonded(_ interface{}, _ context.Context, del sdk.AccAddress) (sdkmath.Int, error) {
+	QueryLog = append(QueryLog, "bonded|"+del.String()+"|")
+	if Bonded == nil {
+		return sdkmath.ZeroInt(), nil
+	}
+	return sdkmath.NewIntFromBigInt(Bonded), nil
+}
+
+func DKDelegationRewards(_ interface{}, _ context.Context, req *disttypes.QueryDelegationRewardsRequest) (*disttypes.QueryDelegationRewardsResponse, error) {
+	QueryLog = append(QueryLog, "rewards|"+req.DelegatorAddress+"|"+req.ValidatorAddress)
+	scale := new(big.Int).Exp(big.NewInt(10), big.NewInt(18), nil)
+	for _, r := range Rewards {
+		if r.Validator == req.ValidatorAddress {
+			raw := new(big.Int).Add(new(big.Int).Mul(r.Amount, scale), r.Frac)
+			dc := sdk.DecCoins{}
+			if raw.Sign() > 0 {
+				dc = dc.Add(sdk.NewDecCoinFromDec(BondDenom, sdkmath.LegacyNewDecFromBigIntWithPrec(raw, 18)))
+			}
+			if r.Other != nil && r.Other.Sign() > 0 {
+				dc = dc.Add(sdk.NewDecCoinFromDec("zother", sdkmath.LegacyNewDecFromBigInt(r.Other)))
+			}
+			return &disttypes.QueryDelegationRewardsResponse{Rewards: dc}, nil
+		}
+	}
+	return nil, stakingtypes.ErrNoDelegation
 }
